@@ -35,11 +35,11 @@ CLAIMS.update({
     "C07": ("registry beliefs (every successful join resolves under the returned id/uuid and lists the participant), model of session lifetime, session_count gauge delta, live frame-worker tasks = live sessions, permutation search over concurrent joins/departures",
             "Create/join/switch/leave cycles over <= 3 symbolic sessions with id reuse, plus concurrent blocks (join of an existing session against the last departure, two last departures, two creations, departure against creation) under random-walk and PCT schedules.", "§7 C07"),
     "C08": ("after every offence: no panic in any task, the offender is either still served (ping answered) or ended through the normal path exactly once (handler returned, HandleDisconnect once, not a member any more, no non-persistent entity left, gauge restored), both witnesses still served; slow readers that resume receive everything exactly once in order; silent clients are disconnected at the idle timeout, keep-alive clients are not",
-            "Offences sampled per run: descriptor-driven structurally valid messages of all four packages with absent sub-messages and boundary floats, raw garbage, unmasked/text/fragmented/oversized/control frames, bursts of 1-600 failing requests, closes mid-frame (FIN/RST), read stalls with up to 1500 relayed and 600 own messages outstanding followed by resume/FIN/RST, silence and keep-alive across the idle timeout on the simulated clock; under random-walk/PCT schedules with fixed or random select preference. All byte sequences are sampled, not enumerated.", "§7 C08"),
+            "Offences sampled per run (a quarter of the offenders have switched session before; client clocks may be skewed): descriptor-driven structurally valid messages of all four packages with absent sub-messages and boundary floats, raw garbage, unmasked/text/fragmented/oversized/control frames, bursts of 1-600 failing requests, closes mid-frame (FIN/RST), read stalls with up to 1500 relayed and 600 own messages outstanding followed by resume/FIN/RST, silence and keep-alive across the idle timeout on the simulated clock; under random-walk/PCT schedules with fixed or random select preference. All byte sequences are sampled, not enumerated.", "§7 C08"),
     "C17": ("differential re-execution: stream under flag set F = flag-free stream filtered by F, exactly, per connection; same final server state; reference model filtered by F in the first execution (same answers, same state)",
             "Histories executed under a flag set and again without flags; quick covers the empty set, all ten, the ten singletons and pseudo-random subsets plus unknown names; thorough walks through all 1024 subsets.", "§7 C17"),
-    "C09": ("deadlock states (a task waiting for a lock at quiescence), every request of a block answered exactly once, answers admissible under some order, server returns to its initial state after all clients close",
-            "2-16 connections in shared sessions with all modules and the production decorators; concurrent blocks of 2-3 requests (serializability search) and one block of 5-16 simultaneous requests (liveness) per run, under random-walk/PCT schedules with injected task stalls.", "§7 C09"),
+    "C09": ("deadlock states (a task waiting for a lock at quiescence), every request of a block answered exactly once, model-free state invariants (attachments belong to existing entities, entities and subscriptions to members), no two mutually exclusive successes, latest timestamp kept, relays explained by the block, race-detector reports whose two accesses are in hagall code, server returns to its initial state after all clients close",
+            "2-16 connections in shared sessions with all modules and the production decorators (off in a third of the runs so that the race detector sees through fmt's pools); concurrent blocks of 2-5 requests (permutation search, double-success, stale-winner, relay-mismatch and state-invariant rules), blocks of 6-16 simultaneous requests (liveness), and three contention families (component storm, duel on one entity/component/action, ground duel) under random-walk/PCT schedules with unlock yields and injected task stalls; 6 of 16 quick workers (8 thorough) run the race-detector build.", "§7 C09"),
     "C10": ("history invariants over every id the server hands out (fresh session id among live sessions, participant/entity ids never reissued per session UUID, type ids <-> names bijective, asset ids unique) and a generator micro-world (no id outstanding twice)",
             "Long create/end cycles, joins, entity/type/asset allocations, concurrent allocation blocks; in a quarter of the runs 1-8 tasks call New/Reuse on one SequentialIDGenerator under the simulated scheduler. Sequences are sampled, not enumerated.", "§7 C10"),
     "C15": ("two-sided, conservative: a single carrier holding a token that is clearly valid under the secret currently issued (HS256, right key, iat <= now < exp with margins on the simulated clock) must be admitted and the inner handler entered once; a token not valid under any secret current during the attempt even with 15 s of leeway (every mutation, other/empty key, alg none, expired, not yet valid, no secret held) must be rejected with the inner handler never entered; everything else is not asserted",
